@@ -4,7 +4,7 @@ import shutil
 from harness import asmrun
 
 ID = "C06"
-MODULES = ["HeraProofs.Props.C06"]
+MODULES = ["HeraProofs.Props.C06", "HeraProofs.Props.C06b"]
 GENERATED_DEPS = ["Ops.lean", "Exec.lean", "Tables.lean"]
 EXPLANATION = ("Theorem chain: C01_step (every interpreted instruction has its architected effect), C05_decode_sound (every emitted "
                "word decodes back to the operation), C06_exec_canon (the canonical operand form a decoder recovers executes identically), "
@@ -12,7 +12,8 @@ EXPLANATION = ("Theorem chain: C01_step (every interpreted instruction has its a
                "every run - the real `hera assemble --stdout` output (code words + data image) is executed by the independent word-level "
                "machine Spec.wordRun with the arithmetic decoder Spec.decode and compared (registers, flags, memory, halt status) with the "
                "real interpreter on generated terminating programs x --big-stack; deleting debugging operations must leave the assembler "
-               "output byte-identical.")
+               "output byte-identical."
+               ' At the level of the architecture the whole-program statement is a theorem (C06b): C06_image_step / C06_image_run - the word machine (fetch a word, decode it by the HERA table, execute) on the table words of ANY list of valid instructions behaves, step for step and for every number of steps, like executing the instructions themselves (via C05_decode_encode and C06_exec_canon).')
 ASSUMPTIONS = ["whole-program statement decided by translation validation per generated program (not a theorem)",
                "the next-free cell that the data image places at data_start-1 (Hassem compatibility) is not compared",
                "programs that execute a point the architecture leaves open (MUL high-word c/v, aliased CALL/RETURN) are not comparable and skipped"]
